@@ -214,7 +214,9 @@ def run(chk):
         gr = wj.get("gravity model", {}).get("magnitude", 9.81)
         al2, cp2 = m.get("thermal expansion coefficient", -1), m.get("specific heat", -1)
         al2, cp2 = (al if al2 < 0 else al2), (cp if cp2 < 0 else cp2)
-        hot = max(Tp * math.exp(al * gr * d / cp), Tp * math.exp(al2 * gr * d / cp2))
+        # "the larger of the ambient temperature and the background adiabat": the ambient temperature is the potential temperature
+        # (it is what the model uses with adiabatic heating switched off, and it exceeds the adiabat when gravity is negative)
+        hot = max(Tp, Tp * math.exp(al * gr * d / cp), Tp * math.exp(al2 * gr * d / cp2))
         if not (Ts - 1e-6 * Ts <= v[0] <= hot + 1e-6 * hot):
             dsc = cs.describe(i)
             dsc["temperature"], dsc["surface_temperature"], dsc["adiabat"] = v[0], Ts, hot
